@@ -62,8 +62,6 @@ def main():
         if not ok:
             return 1
         # run our checks against the patched copy
-        ev = tempfile.mkdtemp(prefix="mvev-")
-        shutil.copytree(VERIF / "evidence", ev, dirs_exist_ok=True)
         verdicts = {}
         for c in checks:
             cenv = dict(os.environ, MV_REPO=wt)
@@ -71,9 +69,6 @@ def main():
             keys = sorted({ln.split("key=")[1].strip() for ln in rr.stdout.splitlines() if ln.startswith("VIOLATION") and "key=" in ln})
             verdicts[c] = {"rc": rr.returncode, "violation_keys": keys[:8]}
             print(c, "rc", rr.returncode, keys[:4])
-        shutil.rmtree(VERIF / "evidence")
-        shutil.copytree(ev, VERIF / "evidence")
-        shutil.rmtree(ev)
         meta["checks_run"] = verdicts
         meta["caught_by"] = [c for c, v in verdicts.items() if v["rc"] == 1]
         dst = VERIF / "seeded" / f"{pid}-{variant}"
